@@ -1425,7 +1425,8 @@ func c07RaceParent(r *Result, rng *rand.Rand, tier string) {
 		c07RaceProg{Seed: rng.Int63n(1 << 30), G: 8, Cold: false, Family: "zoo", Handle: "db", Ops: 6, Only: "5,6,7,8,9,10,0"},
 		c07RaceProg{Seed: rng.Int63n(1 << 30), G: 4, Cold: true, Family: "zoo", Handle: "idwhere", Ops: 8, Conns: 4, Only: "5,6,8,10,15,1"},
 		// finishers called directly on the shared handle (a handle that carries a Model): the receiver is the shared *gorm.DB itself
-		c07RaceProg{Seed: rng.Int63n(1 << 30), G: 4, Cold: rng.Intn(2) == 0, Family: "zoo", Handle: "model", Ops: 5, Conns: 4, Only: "30,30,9,10,5"},
+		c07RaceProg{Seed: rng.Int63n(1 << 30), G: 8, Cold: rng.Intn(2) == 0, Family: "zoo", Handle: "model", Ops: 8, Conns: 8, Only: "30,30,30,9,10,5"},
+		c07RaceProg{Seed: rng.Int63n(1 << 30), G: 8, Cold: false, Family: "zoo", Handle: "model", Ops: 6, Conns: 8, Only: "30"},
 	)
 	if dev := os.Getenv("C07_DEV_PROGS"); dev != "" { // development aid: run exactly these programs
 		progs = nil
